@@ -457,6 +457,40 @@ def correspond(ctx, scale):
                                 same(ib_, iv_, 'indices', key + ':memory-layout:' + vname.split('/')[0], f'{m["name"]} ({lay}) input as {vname}')
                             if not torch.equal(torch.nan_to_num(xv, nan=7.0), torch.nan_to_num(keep, nan=7.0)):
                                 failures.append({'key': key + ':input-modified-in-place', 'what': f'{m["name"]} ({lay}): the caller\'s input tensor ({vname}) was modified by the call', 'case': dict(name=m['name'], layout=lay)})
+                    # (3d) RE-ENTRANCY: a read-only forward hook on a sub-module (monitoring, visualisation) calls the module itself on another input - a
+                    # differently shaped one where the layout allows - while the outer call is in flight; the outer call returns what it returns alone
+                    if rep < 2 and not grouped:
+                        subs_ = [sm for sm in mod.modules() if sm is not mod and len(list(sm.children())) == 0][:1] or [sm for sm in mod.modules() if sm is not mod][:1]
+                        if subs_:
+                            xin = to_layout(xs, lay, hw)
+                            if lay == 'image':
+                                x_other = torch.randn(*xin.shape[:2], xin.shape[3], xin.shape[2])     # same h * w, transposed feature map
+                            elif lay == 'video':
+                                x_other = torch.randn(*xin.shape[:2], *reversed(xin.shape[2:]))
+                            else:
+                                x_other = torch.randn(1, *xin.shape[1:])
+                            state_h = {'busy': False, 'n': 0}
+
+                            def hook_(_m, _inp, _out):
+                                if not state_h['busy']:
+                                    state_h['busy'] = True
+                                    try:
+                                        with torch.no_grad():
+                                            run(mod, m, x_other, True)
+                                        state_h['n'] += 1
+                                    finally:
+                                        state_h['busy'] = False
+                            ob_, ib_ = run(mod, m, xin, True)
+                            hh_ = subs_[0].register_forward_hook(hook_)
+                            try:
+                                oh_, ih_ = run(mod, m, xin, True)
+                            finally:
+                                hh_.remove()
+                            dist['reentrant_hook_calls'] = dist.get('reentrant_hook_calls', 0) + int(state_h['n'] > 0)
+                            if ob_ is not None:
+                                same(ob_, oh_, 'outputs', key + ':reentrant-hook', f'{m["name"]} ({lay}) with a forward hook that calls the module on another input')
+                            if ib_ is not None:
+                                same(ib_, ih_, 'indices', key + ':reentrant-hook', f'{m["name"]} ({lay}) with a forward hook that calls the module on another input')
                     # (4) layout equivalence: the same per-vector results as the flattened channel-last sequence
                     if lay != 'seq' and 'seq' in m['layouts']:
                         ref = m['mk']('seq')
